@@ -1,5 +1,5 @@
 """C19 - opening arbitrary bytes fails only with ELFError; header enumeration terminates."""
-from symx.api import H, ReadBudgetExceeded
+from symx.api import H, ReadBudgetExceeded, AllocBudgetExceeded
 from spec import enc
 from spec import elf_layout as L
 from harness.elfkit import Image
@@ -68,6 +68,9 @@ def _seed(cls, little):
     img.section('.note.x', sh_type=7, sh_offset=noteoff, sh_size=len(note))                                                  # 5
     img.section('.dynamic', sh_type=6, sh_offset=dynoff, sh_size=len(tags) * dynsz, sh_entsize=dynsz, sh_link=1)             # 6
     img.add_shstrtab()                                                                                                       # 7
+    # a no-bits section with a (legally) huge size: it occupies no file space, so nothing may allocate its size because of a
+    # corrupted index or link that designates it
+    img.section('', sh_name=0, sh_type=8, sh_flags=3, sh_offset=noteoff, sh_size=0x8000000, sh_addr=0x200000)                # 8
     data = img.build()
     where = dict(shoff=img.shoff, phoff=img.phoff, shent=img.shent, phent=img.phent, dyn=dynoff, sym=symoff, hash=hashoff, gnu=gnuoff, note=noteoff)
     return data, where
@@ -176,6 +179,10 @@ def h_battery(ctx):
     # a loop that keeps reading (e.g. at end of file) is cut when it exceeds the budget and reported, instead of running into the
     # path budget of the engine (which would only be inconclusive)
     st.read_budget = budget
+    # memory: no single allocation request (a sequence repeated n times, e.g. the zero block of a no-bits section) and, in the
+    # concrete replay, no peak of traced allocations beyond 1 MiB + 64 x file size
+    ctx.alloc_begin((1 << 20) + 64 * len(data))
+    over = False
     try:
         try:
             elf = EF.ELFFile(st)
@@ -187,6 +194,14 @@ def h_battery(ctx):
     except ReadBudgetExceeded:
         ctx.outcome('read-budget-exceeded')
         ctx.check('battery/reads-bounded-by-file-size', False)
+        return
+    except AllocBudgetExceeded:
+        over = True
+    finally:
+        over = ctx.alloc_end() or over
+    if over:
+        ctx.outcome('allocation-exceeded')
+        ctx.check('battery/allocation-bounded-by-file-size', False)
         return
     ctx.outcome('terminated')
     ctx.check('battery/reads-bounded-by-file-size', st.reads <= budget)
